@@ -79,7 +79,7 @@ def main():
         "coverage": {
             "evaluations": evaluations,
             "distinct_nontrivial": int(ix.get("sequences", 0)) + len(k.get("isas", [])) * (int(k.get("max_len", 0)) + 1) * 4,
-            "rule": "kernels: every available ISA (scalar, SSE2, AVX2+FMA, AVX-512F where the CPU has it, plus the runtime-dispatched entry points) x {dot, sum_squares, l2_sq, dot_and_norms} x length 0..max_len x start offset 0..3 on exact-size heap buffers, compared with the scalar kernel; index: every operation sequence of the depth bound over {add, add duplicate vector, add duplicate id, search, search with k=ef=10000, pre-cancelled search} x dim x M x capacity x metric on HnswVectorIndex, plus HnswBackend runs with overwrites, deletes, forced tombstone compaction, batch search and free-running concurrent readers; everything compiled with -Zsanitizer=address and debug assertions (std ub_checks); distinct_nontrivial = index sequences + (ISA x length x offset) kernel points",
+            "rule": "kernels: every available ISA (scalar, SSE2, AVX2+FMA, AVX-512F where the CPU has it, plus the runtime-dispatched entry points) x {dot, sum_squares, l2_sq, dot_and_norms} x length 0..max_len x start offset 0..3 on exact-size heap buffers, compared with the scalar kernel; index: every operation sequence of the depth bound over {add, add duplicate vector, add duplicate id, search, search with k=ef=10000, pre-cancelled search} x dim x M x capacity x metric on HnswVectorIndex; every row-length pattern of <= 3 rows over {dim, dim-1, dim+1, 0} (and a NaN row) through parallel_insert_batch on an empty and a non-empty index followed by well-formed searches; plus HnswBackend runs with overwrites, deletes, forced tombstone compaction, batch search and free-running concurrent readers; everything compiled with -Zsanitizer=address and debug assertions (std ub_checks); distinct_nontrivial = index sequences + (ISA x length x offset) kernel points",
             "samples": [{"kernel": "avx2+fma dot len=33 off=1"}, {"index_sequence": ["Add", "AddDupVec", "SearchBigK", "AddDupId"], "dim": 17, "M": 5, "capacity": 2}],
             "exhaustive": True,
             "kernels": k, "index": ix,
